@@ -28,6 +28,28 @@ import hashlib, json, os, re, subprocess, sys
 
 VERIF = os.path.dirname(os.path.dirname(os.path.abspath(__file__)))
 REPO = os.environ.get("VERIF_REPO", "/repo")
+
+class KeepIfSame:
+    """write a generated file only when its content changed, so that make rebuilds only what depends on a real change"""
+    def __init__(self, path):
+        self.path = path
+        import io
+        self.buf = io.StringIO()
+    def __enter__(self):
+        return self.buf
+    def __exit__(self, et, ev, tb):
+        if et is not None:
+            return False
+        new = self.buf.getvalue()
+        try:
+            old = open(self.path).read()
+        except OSError:
+            old = None
+        if old != new:
+            with open(self.path, "w") as f:
+                f.write(new)
+        return False
+
 OUT = os.path.join(VERIF, "coq", "Generated")
 
 
@@ -1285,12 +1307,12 @@ def main():
         status["failed"]["funnel"] = str(e)
 
     # --- write Generated/Leaf.v
-    with open(os.path.join(OUT, "Leaf.v"), "w") as f:
-        f.write("(* GENERATED by tools/c2v.py from %s - do not edit, do not commit *)\n" % REPO)
+    with KeepIfSame(os.path.join(OUT, "Leaf.v")) as f:
+        f.write("(* GENERATED by tools/c2v.py from the repository working tree - do not edit, do not commit *)\n")
         f.write("From Coq Require Import ZArith List Bool.\nFrom ADF Require Import CPrelude Generated.Layout.\nImport ListNotations.\nLocal Open Scope Z_scope.\nLocal Open Scope bool_scope.\n\n")
         for r in fns:
             f.write("(* %s *)\n%s\n" % (r["c_name"], r["text"]))
-    with open(os.path.join(OUT, "Layout.v"), "w") as f:
+    with KeepIfSame(os.path.join(OUT, "Layout.v")) as f:
         f.write("(* GENERATED by tools/c2v.py - do not edit, do not commit *)\n")
         f.write("From Coq Require Import ZArith List String.\nImport ListNotations.\nLocal Open Scope Z_scope.\nLocal Open Scope string_scope.\n\n")
         for k in sorted(consts):
@@ -1321,11 +1343,11 @@ def main():
         mods += [l.strip() for l in open(mt) if l.strip() and not l.startswith("#")]
     if os.path.exists(nt):
         names += [l.strip() for l in open(nt) if l.strip() and not l.startswith("#")]
-    with open(os.path.join(OUT, "ExtractAll.v"), "w") as f:
+    with KeepIfSame(os.path.join(OUT, "ExtractAll.v")) as f:
         f.write("(* GENERATED by tools/c2v.py *)\nFrom Coq Require Extraction ExtrOcamlBasic.\n")
         f.write("From ADF Require Import %s.\nExtraction Language OCaml.\n" % " ".join(mods))
         f.write("Extraction \"model.ml\" %s.\n" % " ".join(names))
-    with open(os.path.join(OUT, "leaf_dispatch.ml"), "w") as f:
+    with KeepIfSame(os.path.join(OUT, "leaf_dispatch.ml")) as f:
         f.write("(* GENERATED by tools/c2v.py *)\nopen Zconv\n\nlet dispatch (fn : string) (iv : int list) (lv : int list list) (fuel : int) : string =\n  match fn with\n")
         for r in fns:
             args = []
